@@ -5,9 +5,9 @@
    (rv_store_one_block_refines, rv_load_one_block_release_refines, rv_load_one_block_share_refines) and on
    Proof/RVHeapAbs.v.  The RISC-V counterpart of Proof/X86MemStoreFull.v / X86MemLoadFull.v (one block). *)
 From Coq Require Import List ZArith NArith String Bool Lia FMapPositive.
-From SCC Require Import Base.Sexp Lang.AxSyn Sem.AxSem Model.Backend Model.RV Sem.RVSem Generated.Constants
+From SCC Require Import Base.Sexp Lang.AxSyn Sem.AxSem Sem.AxHeap Model.Backend Model.RV Sem.RVSem Generated.Constants
      Proof.RVSel Proof.RVHeapAbs Proof.RVHDefs.
-From SCC Require Model.Heap.
+From SCC Require Model.Heap Proof.RVSubst.
 Import ListNotations.
 Open Scope list_scope.
 Open Scope Z_scope.
@@ -517,3 +517,167 @@ Proof.
     + destruct X2 as (_ & _ & X2). rewrite X2. rewrite !fp_a_share. unfold h', h, own_heap, reg_or0. cbn [fp]. now rewrite RF.
 Qed.
 End Load.
+
+(* ================= the reference-count code of a Substitute = the machine's operations ================= *)
+(* headers of all blocks and the free pointer lie lo above the smallest and hi below the largest 64-bit integer *)
+Definition hb (lo hi : Z) (s : rstate) : Prop :=
+  (forall x, is_blk x -> min_int + lo <= hword s x /\ hword s x + hi <= max_int) /\
+  (exists f, rget s FREE = Some f /\ min_int + lo <= f /\ f + hi <= max_int).
+Definition n_erase (tm : list (binding * list N)) : Z :=
+  Z.of_nat (List.length (filter (fun bt : binding * list N => match bchi (fst bt), snd bt with Ext, _ => false | _, [] => true | _, _ => false end) tm)).
+Definition n_share (tm : list (binding * list N)) : Z :=
+  fold_right (fun (bt : binding * list N) z => match bchi (fst bt) with Ext => z | _ => Z.of_nat (List.length (snd bt)) + z end) 0 tm.
+Lemma n_share_nonneg tm : 0 <= n_share tm.
+Proof. unfold n_share. induction tm as [|a r IH]; cbn [fold_right]; [lia|]. destruct (bchi (fst a)); lia. Qed.
+Lemma n_erase_nonneg tm : 0 <= n_erase tm.
+Proof. unfold n_erase. lia. Qed.
+
+Lemma hrun_app ops1 ops2 a : hrun (ops1 ++ ops2) a = hrun ops2 (hrun ops1 a).
+Proof. unfold hrun. apply fold_left_app. Qed.
+
+Lemma hb_erase F lo hi s s1 p :
+  hb (lo + 1) hi s -> 0 <= lo <= 4611686018427387904 -> 0 <= hi <= 4611686018427387904 -> (p = 0 \/ is_blk p) ->
+  st_eqB (abs_heap F s1) (Heap.erase p (abs_heap F s)) -> (exists f1, rget s1 FREE = Some f1) -> hb lo hi s1.
+Proof.
+  intros (HB1 & f & RF & HB2) Hlo Hhi PB (_ & EF & _ & EM) (f1 & RF1). split.
+  - intros x Hx. specialize (EM x Hx). apply (f_equal Heap.hdr) in EM. cbn [abs_heap Heap.m abs_mem Heap.hdr] in EM.
+    rewrite EM. unfold Heap.erase. destruct (Z.eqb_spec p 0) as [P0|P0]; [cbn [abs_heap Heap.m abs_mem Heap.hdr]; destruct (HB1 x Hx); lia|].
+    destruct PB as [?|PB]; [contradiction|]. cbn [abs_heap Heap.m abs_mem Heap.hdr Heap.free].
+    destruct (hword s p =? 0); cbn [Heap.m]; unfold Heap.set_hdr, Heap.upd; destruct (Z.eqb_spec x p) as [->|NX]; cbn [Heap.hdr abs_mem];
+      try (unfold reg_or0; rewrite RF); try (destruct (HB1 _ PB); lia); destruct (HB1 x Hx); lia.
+  - exists f1. split; [exact RF1|]. cbn [abs_heap Heap.free] in EF. unfold reg_or0 in EF at 1. rewrite RF1 in EF. rewrite EF.
+    unfold Heap.erase. destruct (Z.eqb_spec p 0) as [P0|P0]; [cbn [abs_heap Heap.free]; unfold reg_or0; rewrite RF; lia|].
+    destruct PB as [?|PB]; [contradiction|]. cbn [abs_heap Heap.m abs_mem Heap.hdr Heap.free].
+    destruct (hword s p =? 0); cbn [Heap.free]; [destruct PB as (k & Hk & -> & Hhi'); unfold min_int, max_int, two63, HEAP_BASE, HEAP_SIZE in *; lia|unfold reg_or0; rewrite RF; lia].
+Qed.
+Lemma hb_share F lo hi n s s1 p :
+  hb lo (hi + n) s -> 0 <= lo -> 0 <= hi -> 0 <= n -> (p = 0 \/ is_blk p) ->
+  st_eqB (abs_heap F s1) (Heap.share p n (abs_heap F s)) -> rget s1 FREE = rget s FREE -> hb lo hi s1.
+Proof.
+  intros (HB1 & f & RF & HB2) Hlo Hhi Hn PB (_ & _ & _ & EM) RF1. split.
+  - intros x Hx. specialize (EM x Hx). apply (f_equal Heap.hdr) in EM. cbn [abs_heap Heap.m abs_mem Heap.hdr] in EM.
+    rewrite EM. unfold Heap.share. destruct (Z.eqb_spec p 0) as [P0|P0]; [cbn [abs_heap Heap.m abs_mem Heap.hdr]; destruct (HB1 x Hx); lia|].
+    destruct PB as [?|PB]; [contradiction|]. cbn [abs_heap Heap.m abs_mem Heap.hdr]. unfold Heap.set_hdr, Heap.upd.
+    destruct (Z.eqb_spec x p) as [->|NX]; cbn [Heap.hdr abs_mem]; [destruct (HB1 _ PB); lia|destruct (HB1 x Hx); lia].
+  - exists f. split; [rewrite RF1; exact RF|lia].
+Qed.
+Lemma vt_ge4 context n id t : variable_temporary rv_backend n context id = Ok t -> (4 <= t)%N.
+Proof.
+  unfold variable_temporary. destruct (position_of context id 0); [|discriminate].
+  cbn [b_temporary_from_position rv_backend]. unfold temporary_from_position. change RESERVED with 4%N.
+  destruct (N.ltb _ _); intros H; inversion H; lia.
+Qed.
+
+Section WC.
+Variable im : image.
+
+Theorem rv_weakening_contraction_gen (ptr : binding -> Z) context F : forall tm lc cs lc' pos s a0,
+  code_weakening_contraction rv_backend tm context lc = Ok (cs, lc') ->
+  placed im pos cs -> (exists h0, rget s HEAP = Some h0) -> st_eqB (abs_heap F s) a0 ->
+  (forall b targets t, In (b, targets) tm -> bchi b <> Ext ->
+     variable_temporary rv_backend Fst context (idn (bvar b)) = Ok t ->
+     rget s t = Some (ptr b) /\ (ptr b = 0 \/ is_blk (ptr b))) ->
+  hb (n_erase tm) (n_share tm) s -> n_erase tm <= 4611686018427387904 -> n_share tm <= 4611686018427387904 ->
+  (forall b targets, In (b, targets) tm -> (List.length targets <= 2047)%nat) ->
+  let ops := flat_map (fun bt : binding * list N => rc_op (bchi (fst bt)) (ptr (fst bt)) (List.length (snd bt))) tm in
+  exists s', star im pos s (padd pos (List.length cs)) s' /\
+    st_eqB (abs_heap F s') (hrun ops a0) /\
+    (forall r, r <> TEMP -> r <> FREE -> rget s' r = rget s r) /\
+    (forall a, ~ is_blk a -> hword s' a = hword s a) /\
+    (exists f', rget s' FREE = Some f').
+Proof.
+  induction tm as [|[b targets] tm IH]; intros lc cs lc' pos s a0 HC PL (h0 & RH) EQ0 HV HB BE BS HL ops.
+  - cbn in HC. inversion HC; subst. destruct HB as (_ & f & RF & _).
+    exists s. split; [apply star_refl|]. split; [exact EQ0|]. split; [auto|]. split; [auto|eauto].
+  - cbn [code_weakening_contraction] in HC. unfold ops. cbn [flat_map fst snd].
+    assert (HV' : forall b0 t0 t, In (b0, t0) tm -> bchi b0 <> Ext ->
+              variable_temporary rv_backend Fst context (idn (bvar b0)) = Ok t -> rget s t = Some (ptr b0) /\ (ptr b0 = 0 \/ is_blk (ptr b0)))
+      by (intros b0 t0 t Hin Hne Ht; exact (HV b0 t0 t (or_intror Hin) Hne Ht)).
+    assert (HL' : forall b0 t0, In (b0, t0) tm -> (List.length t0 <= 2047)%nat) by (intros b0 t0 Hin; exact (HL b0 t0 (or_intror Hin))).
+    pose proof (n_share_nonneg tm) as NS. pose proof (n_erase_nonneg tm) as NEr.
+    destruct (Z.eq_dec 0 0) as [_|?]; [|contradiction].
+    assert (EXT : bchi b = Ext \/ bchi b <> Ext) by (destruct (bchi b); [right|right|left]; congruence).
+    destruct EXT as [Eb|NEb].
+    + (* ext: no code, no operation *)
+      rewrite Eb in *. cbn [rc_op app]. assert (NEQ : n_erase ((b, targets) :: tm) = n_erase tm) by (unfold n_erase; cbn [filter fst snd]; rewrite Eb; reflexivity).
+      assert (NSQ : n_share ((b, targets) :: tm) = n_share tm) by (unfold n_share; cbn [fold_right fst snd]; rewrite Eb; reflexivity).
+      rewrite NEQ, NSQ in *. apply (IH lc cs lc' pos s a0 HC PL (ex_intro _ h0 RH) EQ0 HV' HB BE BS HL').
+    + assert (HC' : exists c1 lc1 c2, update_reference_count rv_backend (bvar b) context (List.length targets) lc = Ok (c1, lc1) /\
+                      code_weakening_contraction rv_backend tm context lc1 = Ok (c2, lc') /\ cs = c1 ++ c2).
+      { destruct (bchi b); [| |congruence].
+        all: destruct (update_reference_count rv_backend (bvar b) context (List.length targets) lc) as [[c1 lc1]|] eqn:U1; cbn [rbind] in HC; [|discriminate];
+          destruct (code_weakening_contraction rv_backend tm context lc1) as [[c2 lc2]|] eqn:U2; cbn [rbind] in HC; [|discriminate];
+          inversion HC; subst; exists c1, lc1, c2; repeat split; auto. }
+      destruct HC' as (c1 & lc1 & c2 & EU & E2 & ->). clear HC.
+      assert (OPS : rc_op (bchi b) (ptr b) (List.length targets) =
+                    match List.length targets with O => [Heap.OErase (ptr b)] | S O => [] | S (S m) => [Heap.OShare (ptr b) (Z.of_nat (S m))] end)
+        by (unfold rc_op; destruct (bchi b); congruence).
+      rewrite OPS. clear OPS.
+      assert (NEQ : n_erase ((b, targets) :: tm) = n_erase tm + (match List.length targets with O => 1 | _ => 0 end)).
+      { unfold n_erase. cbn [filter fst snd]. destruct (bchi b); try congruence; destruct targets; cbn [List.length]; lia. }
+      assert (NSQ : n_share ((b, targets) :: tm) = n_share tm + Z.of_nat (List.length targets)).
+      { unfold n_share. cbn [fold_right fst snd]. destruct (bchi b); try congruence; lia. }
+      rewrite NEQ, NSQ in HB. rewrite NEQ in BE. rewrite NSQ in BS.
+      unfold update_reference_count in EU.
+      destruct (variable_temporary rv_backend Fst context (idn (bvar b))) as [t|] eqn:ET; cbn [rbind] in EU; [|discriminate].
+      destruct (HV b targets t (or_introl eq_refl) NEb ET) as (RT & PB).
+      pose proof (vt_ge4 _ _ _ _ ET) as T4. destruct (RVSubst.four_le t T4) as (TZ & TT & TH & TF).
+      apply placed_app in PL as [PL1 PL2].
+      assert (KEEPV : forall s1, (forall r, r <> TEMP -> r <> FREE -> rget s1 r = rget s r) ->
+                forall b0 t0 tt, In (b0, t0) tm -> bchi b0 <> Ext -> variable_temporary rv_backend Fst context (idn (bvar b0)) = Ok tt ->
+                rget s1 tt = Some (ptr b0) /\ (ptr b0 = 0 \/ is_blk (ptr b0))).
+      { intros s1 KR b0 t0 tt Hin Hne Htt. destruct (HV' b0 t0 tt Hin Hne Htt) as [A B]. split; [|exact B].
+        pose proof (vt_ge4 _ _ _ _ Htt) as G. destruct (RVSubst.four_le tt G) as (_ & G1 & _ & G3). rewrite KR; auto. }
+      destruct (List.length targets) as [|[|m]] eqn:EL; inversion EU; subst c1 lc1; clear EU.
+      * (* erase *)
+        destruct HB as (HB1 & f & RF & HB2).
+        destruct (rv_erase_block_heap im pos t lc s (ptr b) F h0 f PL1 TZ TT TH TF RH RF RT PB) as (s1 & ST1 & EQ1 & KR1 & NB1 & RF1).
+        { intros P0 H0. destruct PB as [?|PB]; [contradiction|]. destruct (HB1 _ PB). lia. }
+        destruct (IH _ _ _ (padd pos (List.length (fst (r_erase_block t lc)))) s1 (Heap.erase (ptr b) a0) E2 PL2) as (s2 & ST2 & EQ2 & KR2 & NB2 & RF2).
+        { exists h0. rewrite KR1 by discriminate. exact RH. }
+        { eapply st_eqB_trans; [exact EQ1|]. apply erase_st_eqB; [exact EQ0|exact PB]. }
+        { apply KEEPV. exact KR1. }
+        { apply (hb_erase F _ _ s s1 (ptr b)); auto; try lia. replace (n_share tm + Z.of_nat 0) with (n_share tm) in * by lia. split; [exact HB1|eauto]. }
+        { lia. } { lia. }
+        { exact HL'. }
+        exists s2. split; [rewrite app_length, padd_add; eapply star_trans; eauto|].
+        split; [rewrite hrun_app; exact EQ2|]. split; [intros r R1 R2; rewrite KR2, KR1; auto|]. split; [intros a Ha; rewrite NB2, NB1; auto|exact RF2].
+      * (* one target: nothing *)
+        cbn [app List.length padd] in *. apply (IH _ _ _ pos s a0 E2 PL2 (ex_intro _ h0 RH) EQ0 HV'); [|lia|lia|exact HL'].
+        destruct HB as (HB1 & f & RF & HB2). split; [intros x Hx; destruct (HB1 x Hx); lia|exists f; split; [exact RF|lia]].
+      * (* several targets: share *)
+        destruct HB as (HB1 & f & RF & HB2).
+        pose proof (HL b targets (or_introl eq_refl)) as LT. rewrite EL in LT.
+        destruct (rv_share_block_heap im pos t (N.of_nat (S m)) lc s (ptr b) F h0 f PL1 TZ TT TH TF RH RF RT PB) as (s1 & ST1 & EQ1 & KR1 & NB1).
+        { unfold fits12. apply andb_true_iff. split; apply Z.leb_le; lia. }
+        { intros P0. destruct PB as [?|PB]; [contradiction|]. destruct (HB1 _ PB). lia. }
+        replace (Z.of_N (N.of_nat (S m))) with (Z.of_nat (S m)) in EQ1 by lia.
+        destruct (IH _ _ _ (padd pos (List.length (fst (r_share_block_n t (N.of_nat (S m)) lc)))) s1 (Heap.share (ptr b) (Z.of_nat (S m)) a0) E2 PL2) as (s2 & ST2 & EQ2 & KR2 & NB2 & RF2).
+        { exists h0. rewrite KR1 by discriminate. exact RH. }
+        { eapply st_eqB_trans; [exact EQ1|]. apply share_st_eqB; [exact EQ0|exact PB]. }
+        { apply KEEPV. intros r R1 _. apply KR1. exact R1. }
+        { apply (hb_share F _ _ (Z.of_nat (S m)) s s1 (ptr b)); auto; try lia.
+          - split; [intros x Hx; destruct (HB1 x Hx); lia|exists f; split; [exact RF|lia]].
+          - apply KR1. discriminate. }
+        { lia. } { lia. }
+        { exact HL'. }
+        exists s2. split; [rewrite app_length, padd_add; eapply star_trans; eauto|].
+        split; [rewrite hrun_app; exact EQ2|]. split; [intros r R1 R2; rewrite KR2, KR1; auto|]. split; [intros a Ha; rewrite NB2, NB1; auto|exact RF2].
+Qed.
+
+Corollary rv_weakening_contraction_ok (ptr : binding -> Z) context F tm lc cs lc' pos s :
+  code_weakening_contraction rv_backend tm context lc = Ok (cs, lc') ->
+  placed im pos cs -> (exists h0, rget s HEAP = Some h0) ->
+  (forall b targets t, In (b, targets) tm -> bchi b <> Ext ->
+     variable_temporary rv_backend Fst context (idn (bvar b)) = Ok t ->
+     rget s t = Some (ptr b) /\ (ptr b = 0 \/ is_blk (ptr b))) ->
+  hb (n_erase tm) (n_share tm) s -> n_erase tm <= 4611686018427387904 -> n_share tm <= 4611686018427387904 ->
+  (forall b targets, In (b, targets) tm -> (List.length targets <= 2047)%nat) ->
+  let ops := flat_map (fun bt : binding * list N => rc_op (bchi (fst bt)) (ptr (fst bt)) (List.length (snd bt))) tm in
+  exists s', star im pos s (padd pos (List.length cs)) s' /\
+    st_eqB (abs_heap F s') (hrun ops (abs_heap F s)) /\
+    (forall r, r <> TEMP -> r <> FREE -> rget s' r = rget s r) /\
+    (forall a, ~ is_blk a -> hword s' a = hword s a) /\
+    (exists f', rget s' FREE = Some f').
+Proof. intros HC PL RH HV HB BE BS HL. eapply rv_weakening_contraction_gen; eauto. apply st_eqB_refl. Qed.
+End WC.
